@@ -152,7 +152,13 @@ func jsonMutants(r *gen.R, sh *c11Shape, in *ir.Message, valid *jn, n int) []c11
 		case 7: // unknown member, case variant, proto-name key
 			if valid.k == 'o' {
 				t := valid.clone()
-				switch r.Intn(3) {
+				switch r.Intn(4) {
+				case 3:
+					// an unknown member whose NAME is long and not ASCII (valid UTF-8): whatever the server quotes of it in
+					// its answer, the answer is still a validation error
+					ch := gen.Pick(r, []string{"é", "日", "😀"})
+					t.obj = append(t.obj, jmem{strings.Repeat("k", r.Intn(4)) + strings.Repeat(ch, 90+r.Intn(120)), gen.Pick(r, wrongValues)()})
+					emit("unknown_member_long_unicode", t.bytes())
 				case 0:
 					t.obj = append(t.obj, jmem{"nope_" + fmt.Sprint(r.Intn(9)), gen.Pick(r, wrongValues)()})
 					emit("unknown_member", t.bytes())
